@@ -222,7 +222,8 @@ def gen_case(seed, idx, tier="quick"):
     return {"specs": colls, "args": args, "parse_leg": parse_leg, "hs_a": a, "hs_b": b, "faults": rng.random() < cfg["fault_p"],
             "reader_chunk": rng.choice([1, 7, 64, 4096]), "warm": rng.random() < 0.4, "prior": prior,
             # schedule of the importer's cooperating consumers (bcsim/coop.py); read-fault enumeration on the handle-taking reader
-            "sched_seed": rng.randrange(2 ** 31) if rng.random() < 0.5 else None, "read_faults": rng.random() < 0.5}
+            "sched_seed": rng.randrange(2 ** 31) if rng.random() < 0.5 else None, "read_faults": rng.random() < 0.5,
+            "rewrite_same_path": rng.random() < 0.5}
 
 
 # ---------------------------------------------------------------------------------------------------------------
@@ -350,8 +351,14 @@ def h_import(req):
         except Exception as e:
             out["prior_parse_error"] = type(e).__name__
         finally:
-            os.unlink(ppath)
-    path = simdisk.materialise(text, suffix=".gff3")
+            if not req.get("rewrite_same_path"):
+                os.unlink(ppath)
+                ppath = None
+    else:
+        ppath = None
+    # the file under test may live under the very name the earlier file had (rewritten in place)
+    path = simdisk.materialise(text, suffix=".gff3", path=ppath)
+    out["rewritten_in_place"] = ppath is not None
     try:
         try:
             if req["fasta"]:
@@ -1087,7 +1094,9 @@ def run_case(case):
     if case["parse_leg"] and not twins:
         imp = nd.call(case["hs_b"], {"op": "c11.import", "text": t1, "fasta": case["args"]["add_sequences"], "args": case["args"],
                                      "reader_chunk": case["reader_chunk"], "reader_seed": 7, "prior_text": a.get("prior_text"),
-                                     "sched_seed": case.get("sched_seed"), "read_faults": case.get("read_faults")})
+                                     "sched_seed": case.get("sched_seed"), "read_faults": case.get("read_faults"),
+                                     "rewrite_same_path": case.get("rewrite_same_path")})
+        stats["file_rewritten_under_same_name"] += int(bool(imp.get("rewritten_in_place")))
         if "sched" in imp and "models" in imp:
             stats["sched_episodes"] += 1
             stats["sched_steps"] += len(imp["schedule"])
@@ -1334,6 +1343,7 @@ def evidence(agg, tier, seed, wall, batches):
             "hashseed(importer differs)": st["hashseed_differs"],
             "stale_exporter(exported a strain twin earlier in the same process)": st["stale_exporter(exported a strain twin first)"],
             "stale_importer(parsed another file earlier in the same process)": st["stale_importer(parsed another file first)"],
+            "file_rewritten_under_the_same_name_between_two_parses": st["file_rewritten_under_same_name"],
             "interleaved_consumers(episodes where 2-4 lazy parsers were stepped by the seeded scheduler)": st["sched_episodes"],
             "scheduler_steps": st["sched_steps"], "scheduler_task_switches": st["sched_switches"],
             "abandoned_consumer(a parser closed in the middle of another file)": st["sched_abandoned_consumer"],
